@@ -364,6 +364,11 @@ def bitfield_family(rnd, thorough):
                     if after is not None:
                         fields.append(A.field("post", after))
                     out.append(A.t_struct("BF", fields))
+                    if before is None and after is None and len(ws) >= 2:
+                        # a dynamically sized (or any other) member BETWEEN two runs: it ends the open unit, the run behind it starts
+                        # a fresh one (seed S122) - definitions that fit only a fresh unit, and ones that straddle only a fresh unit
+                        for mid in (A.t_arr(A.t_char(), A.L_NULL), A.t_leb(False), A.t_int("uint8")):
+                            out.append(A.t_struct("BF", [A.field("b0", st, ws[0]), A.field("mid", mid)] + [A.field(f"b{i}", st, w) for i, w in enumerate(ws) if i]))
                     if st["k"] == "enum" and len(ws) > 1:
                         # an enum / flag and its plain base type are the same storage type: they share units
                         mixed = [dict(f) for f in fields]
@@ -385,7 +390,8 @@ def c06_extra(rep, rnd, first_id):
         odd = [t for t in types if t["fields"][0]["name"] == "pre" and t["fields"][0]["type"]["k"] in ("arr", "leb")
                and t["fields"][-1]["name"] == "post" and t["fields"][-1]["type"]["name"] == "uint8"
                and sum(1 for f in t["fields"] if f["bits"]) >= 2 and A_.Storage_size(t["fields"][1]["type"]) in (3, 6)]
-        types = rnd.sample(types, 400) + rnd.sample(wide, min(60, len(wide))) + rnd.sample(odd, min(60, len(odd)))
+        split = [t for t in types if any(f["name"] == "mid" for f in t["fields"])]
+        types = rnd.sample(types, 400) + rnd.sample(wide, min(60, len(wide))) + rnd.sample(odd, min(60, len(odd))) + rnd.sample(split, min(80, len(split)))
     out = []
     for t in types:
         mode = {"endian": rnd.choice("<>"), "align": rnd.random() < 0.5, "ptr": 8}
@@ -429,7 +435,9 @@ def anon_context_family(rnd, first_id, n):
         second = A.t_struct("", [A.field("p", u8), A.field("q", u8)], union=rnd.random() < 0.3)
         elem = rnd.choice([u8, A.t_int("uint16"), A.t_char(), A.t_int("int24")])
         lens = [A.e_bin("&", A.e_id("n"), A.e_lit(3)), A.e_bin("+", A.e_bin("&", A.e_id("m"), A.e_lit(1)), A.e_bin("&", A.e_id("k"), A.e_lit(1))),
-                A.e_bin("&", A.e_bin("*", A.e_id("n"), A.e_id("m")), A.e_lit(3))]
+                A.e_bin("&", A.e_bin("*", A.e_id("n"), A.e_id("m")), A.e_lit(3)),
+                # naming ONLY a member of the anonymous member nested in the anonymous member (two levels down; seed S123)
+                A.e_bin("&", A.e_id("m"), A.e_lit(3)), A.e_bin("&", A.e_id("m"), A.e_lit(3))]
         two = rnd.random() < 0.5
         if two:
             lens.append(A.e_bin("&", A.e_bin("+", A.e_id("n"), A.e_id("q")), A.e_lit(3)))
@@ -443,7 +451,7 @@ def anon_context_family(rnd, first_id, n):
             fields[-2] = A.field("e", A.t_arr(u8, A.L_expr(rnd.choice(lens))))
         t = A.t_struct("AN", fields)
         # constants of the same names: the (folded) fields win (finding F43)
-        consts = {"n": rnd.randrange(0, 4), "m": 1, "q": 2} if rnd.random() < 0.4 else {}
+        consts = {"n": rnd.randrange(0, 4), "m": rnd.choice([0, 1, 5]), "q": 2} if rnd.random() < 0.5 else {}
         scn = {"type": t, "mode": mode, "consts": consts, "defs": A.render(t, consts)}
         start = codec.start_for(rnd, scn)
         out.append(codec.parse_record(first_id + len(out), scn, codec.gen_input(rnd, start, maxlen=40), start, rnd.random() < 0.5, both=True))
@@ -579,6 +587,18 @@ def c08_extra(rep, rnd, first_id):
             data = bytes(rnd.randrange(256) for _ in range(start)) + bytes([2]) + bytes(rnd.randrange(1, 256) for _ in range(60))
             for compiled in (True, False):
                 out += codec.cut_and_fault_records(first_id + len(out), scn, data, start, compiled, rnd, max_cuts=80, max_faults=4)
+    # null-terminated arrays: a cut inside the terminator, or inside an element one of whose bytes is zero, is still a cut
+    # (seed S124: a terminator test that takes any all-zero remainder for the terminator)
+    for elem in ([A.t_wchar(), A.t_int("uint16"), A.t_int("uint24"), A.t_int("uint32")] if rep.tier == "thorough" else [A.t_wchar(), rnd.choice([A.t_int("uint16"), A.t_int("uint24")])]):
+        for endian in "<>":
+            t = A.t_struct("CUTZ", [A.field("h", u8), A.field("x", A.t_arr(elem, A.L_NULL)), A.field("tail", u8)])
+            mode = {"endian": endian, "align": False, "ptr": 4}
+            scn = {"type": t, "mode": mode, "consts": {}, "defs": A.render(t, {})}
+            esz = 2 if elem["k"] == "wchar" else elem["size"]
+            units = [bytes([0x41 + i] + [0] * (esz - 1)) for i in range(3)] + [bytes([0] * (esz - 1) + [0x42])]     # zero bytes on either side
+            data = bytes([7]) + b"".join(units) + bytes(esz) + bytes([9, 9])
+            for compiled in (True, False):
+                out += codec.cut_and_fault_records(first_id + len(out), scn, data, 0, compiled, rnd, max_cuts=40, max_faults=12)
     # a dynamically sized union re-reads its bytes after its members were parsed; that read can come up short like any other
     # (seed S67) - every read call of the clean run is faulted, with data following the union
     for _ in range(12 if rep.tier == "thorough" else 3):
